@@ -47,10 +47,17 @@ static long absOf(const int & v) { return v; }
 static long absOf(const long & v) { return v; }
 static long absOf(const std::string & v) { return std::atol(v.c_str()); }
 
+// W_TYPEDIG 1: the digest also depends on the C++ type, as std::hash<T> does: a std::string gets the next digest index, so int 4 and "4"
+// carry different digests while a value-storing Storage stores the same value for both
+#ifndef W_TYPEDIG
+#define W_TYPEDIG 0
+#endif
+template <typename T> struct TypeShift { enum { value = 0 }; };
+template <> struct TypeShift<std::string> { enum { value = W_TYPEDIG ? 1 : 0 }; };
 template <typename T>
 struct Dig
 {
-	std::size_t operator() (const T & v) const { return spreadOf(static_cast<int>(absOf(v) / 3)); }
+	std::size_t operator() (const T & v) const { return spreadOf(static_cast<int>((absOf(v) / 3 + TypeShift<T>::value) % 3)); }
 };
 
 // value-storing Storage: constructible from every probe type, compares the values (not their C++ representation)
